@@ -141,6 +141,17 @@ def merge(results):
     return counters, evals, len(distinct), violations, known, samples, exhaustive, cpu
 
 
+def strict_json(x):
+    """NaN / Infinity are not JSON: spell them as strings in evidence and replay files."""
+    if isinstance(x, float) and (x != x or x in (float("inf"), float("-inf"))):
+        return repr(x)
+    if isinstance(x, dict):
+        return {str(k): strict_json(v) for k, v in x.items()}
+    if isinstance(x, (list, tuple)):
+        return [strict_json(v) for v in x]
+    return x
+
+
 def slug(s):
     return re.sub(r"[^A-Za-z0-9_.-]+", "_", s)[:80]
 
@@ -215,7 +226,7 @@ def check(prop, tier="quick", seed=0, jobs=None, replay=None, repo=None, quiet=F
             w["repo"] = repo
             path = os.path.join(VERIF, "replays", "%s-%02d-%s.json" % (prop, n, slug(klass)))
             with open(path, "w") as fh:
-                json.dump(w, fh, indent=1, default=str)
+                json.dump(strict_json(w), fh, indent=1, default=str)
             nviol += 1
             if nviol <= 25:
                 lines.append("VIOLATION property=%s replay=%s" % (prop, path))
@@ -270,7 +281,7 @@ def check(prop, tier="quick", seed=0, jobs=None, replay=None, repo=None, quiet=F
         evdir = "evidence" if repo == os.path.realpath("/repo") else ".scratch_evidence"
         os.makedirs(os.path.join(VERIF, evdir), exist_ok=True)
         with open(os.path.join(VERIF, evdir, "%s.json" % prop), "w") as fh:
-            json.dump(ev, fh, indent=1, default=str)
+            json.dump(strict_json(ev), fh, indent=1, default=str, allow_nan=False)
 
         for ln in lines:
             print(ln)
